@@ -234,7 +234,8 @@ theorem dup_refused {provs : List PSpec} {i j : Nat} {pi pj : PSpec} {t : Nat} (
 /-- field types of a struct provider -/
 def fieldTys (sp : PSpec) : List Nat := sp.fields.map (·.2)
 
-/-- all field types expanded by a list of struct providers, in expansion order -/
+/-- all field types expanded by a list of struct providers (in list order; the repaired planner may expand in
+    another order, which only permutes this list) -/
 def allFieldTys (sps : List PSpec) : List Nat := sps.flatMap fieldTys
 
 theorem allFieldTys_cons (sp : PSpec) (sps : List PSpec) :
@@ -292,17 +293,17 @@ theorem expandFields_spec {sty decl : Nat} (fs : List (String × Nat)) {provs pr
         · rintro ⟨h1, h2, h3⟩
           exact ⟨lookup_snoc_none _ _ _ _ h1 h2, h3⟩
 
-/-- pass 2 fails only with `dup`, or with `orphan` for a struct whose type is supplied by nobody at the time
-    it is expanded: not in the incoming supplier map and not a field of an earlier expanded struct -/
-theorem pass2_err (sps : List PSpec) {provs : List PSpec} {m : SupMap} {e : PlanErr}
-    (h : pass2 sps provs m = .error e) :
+/-- the ordered expansion (`pass2Ordered`, the planner before the repair) fails only with `dup`, or with `orphan`
+    for a struct whose type is supplied by nobody at the time it is expanded: not in the incoming supplier map and not a field of an earlier expanded struct -/
+theorem pass2Ordered_err (sps : List PSpec) {provs : List PSpec} {m : SupMap} {e : PlanErr}
+    (h : pass2Ordered sps provs m = .error e) :
     (∃ t, t ∈ allFieldTys sps ∧ e = .dup t) ∨
     (∃ pre sp post, sps = pre ++ sp :: post ∧ e = .orphan sp.structTy ∧ m.lookup sp.structTy = none ∧
       sp.structTy ∉ allFieldTys pre) := by
   induction sps generalizing provs m with
-  | nil => simp [pass2, pure, Except.pure] at h
+  | nil => simp [pass2Ordered, pure, Except.pure] at h
   | cons sp sps ih =>
-    simp only [pass2] at h
+    simp only [pass2Ordered] at h
     split at h
     · rename_i hl
       cases h
@@ -326,19 +327,19 @@ theorem pass2_err (sps : List PSpec) {provs : List PSpec} {m : SupMap} {e : Plan
           · exact hn2 hc
           · exact hnp hc
 
-theorem pass2_spec (sps : List PSpec) {provs provs' : List PSpec} {m m' : SupMap}
-    (h : pass2 sps provs m = .ok (provs', m')) :
+theorem pass2Ordered_spec (sps : List PSpec) {provs provs' : List PSpec} {m m' : SupMap}
+    (h : pass2Ordered sps provs m = .ok (provs', m')) :
     Persist m m' ∧ (allFieldTys sps).Nodup ∧ (∀ t ∈ allFieldTys sps, m.lookup t = none) ∧
     (∀ t, m'.lookup t = none ↔ (m.lookup t = none ∧ t ∉ allFieldTys sps)) := by
   induction sps generalizing provs m with
   | nil =>
-    simp [pass2, pure, Except.pure] at h
+    simp [pass2Ordered, pure, Except.pure] at h
     obtain ⟨_, rfl⟩ := h
     refine ⟨Persist.refl _, List.nodup_nil, ?_, ?_⟩
     · intro t ht; cases ht
     · intro t; simp [allFieldTys]
   | cons sp sps ih =>
-    simp only [pass2] at h
+    simp only [pass2Ordered] at h
     split at h
     · cases h
     · simp only [bind, Except.bind] at h
@@ -365,22 +366,119 @@ theorem pass2_spec (sps : List PSpec) {provs provs' : List PSpec} {m m' : SupMap
           · rintro ⟨⟨h1, h2⟩, h3⟩; exact ⟨h1, h2, h3⟩
           · rintro ⟨h1, h2, h3⟩; exact ⟨⟨h1, h2⟩, h3⟩
 
-theorem pass2_append (pre post : List PSpec) (provs : List PSpec) (m : SupMap) :
-    pass2 (pre ++ post) provs m =
-      match pass2 pre provs m with
-      | .error e => .error e
-      | .ok r => pass2 post r.1 r.2 := by
-  induction pre generalizing provs m with
-  | nil => simp [pass2, pure, Except.pure]
-  | cons sp pre ih =>
-    simp only [List.cons_append, pass2]
-    split
-    · rfl
-    · simp only [bind, Except.bind]
-      split
-      · rfl
+/-! ### the repaired pass 2 (rounds): reduction to the ordered expansion of a reordering (`KV/StructRounds.lean`) -/
+
+theorem allFieldTys_append (a b : List PSpec) : allFieldTys (a ++ b) = allFieldTys a ++ allFieldTys b := by
+  simp [allFieldTys]
+
+theorem allFieldTys_perm {a b : List PSpec} (h : a.Perm b) : (allFieldTys a).Perm (allFieldTys b) :=
+  List.Perm.flatMap_right fieldTys h
+
+theorem pass2_spec (sps : List PSpec) {provs provs' : List PSpec} {m m' : SupMap}
+    (h : pass2 sps provs m = .ok (provs', m')) :
+    Persist m m' ∧ (allFieldTys sps).Nodup ∧ (∀ t ∈ allFieldTys sps, m.lookup t = none) ∧
+    (∀ t, m'.lookup t = none ↔ (m.lookup t = none ∧ t ∉ allFieldTys sps)) := by
+  obtain ⟨sps', hp, ho⟩ := pass2_ok_ordered h
+  obtain ⟨a1, a2, a3, a4⟩ := pass2Ordered_spec sps' ho
+  have hperm := allFieldTys_perm hp
+  refine ⟨a1, hperm.nodup_iff.mp a2, fun t ht => a3 t (hperm.mem_iff.mpr ht), ?_⟩
+  intro t
+  rw [a4 t, hperm.mem_iff]
+
+/-- type key `t` eventually gets a supplier during struct expansion — an order-independent notion: it has one in
+    the incoming supplier map `m`, or it is a field type of a struct provider of `sps` whose own struct type
+    eventually gets a supplier -/
+inductive Avail (m : SupMap) (sps : List PSpec) : Nat → Prop
+  | base {t : Nat} (h : m.lookup t ≠ none) : Avail m sps t
+  | field {t : Nat} (sp : PSpec) (hsp : sp ∈ sps) (hs : Avail m sps sp.structTy) (ht : t ∈ fieldTys sp) : Avail m sps t
+
+theorem Avail.mono {m : SupMap} {sps sps' : List PSpec} {t : Nat} (hsub : ∀ sp ∈ sps, sp ∈ sps')
+    (h : Avail m sps t) : Avail m sps' t := by
+  induction h with
+  | base h => exact .base h
+  | field sp hsp _ ht ih => exact .field sp (hsub sp hsp) ih ht
+
+theorem lookup_none_of_not_avail {m : SupMap} {sps : List PSpec} {t : Nat} (h : ¬ Avail m sps t) : m.lookup t = none := by
+  cases hl : m.lookup t with
+  | none => rfl
+  | some v => exact absurd (Avail.base (by rw [hl]; intro hc; cases hc)) h
+
+theorem pass2Ordered_avail (sps : List PSpec) {provs provs' : List PSpec} {m m' : SupMap}
+    (h : pass2Ordered sps provs m = .ok (provs', m')) : ∀ sp ∈ sps, Avail m sps sp.structTy := by
+  induction sps generalizing provs m with
+  | nil => intro sp hsp; cases hsp
+  | cons sp0 sps ih =>
+    simp only [pass2Ordered] at h
+    split at h
+    · cases h
+    · rename_i v hl
+      simp only [bind, Except.bind] at h
+      split at h
+      · cases h
       · rename_i r h1
-        exact ih r.1 r.2
+        obtain ⟨provs1, m1⟩ := r
+        obtain ⟨_, _, _, a4⟩ := expandFields_spec _ h1
+        have h0 : Avail m (sp0 :: sps) sp0.structTy := .base (by rw [hl]; intro hc; cases hc)
+        have lift : ∀ t, Avail m1 sps t → Avail m (sp0 :: sps) t := by
+          intro t ht
+          induction ht with
+          | @base t hb =>
+            by_cases hm : m.lookup t = none
+            · by_cases hf : t ∈ fieldTys sp0
+              · exact .field sp0 (List.mem_cons_self ..) h0 hf
+              · exact absurd ((a4 t).mpr ⟨hm, hf⟩) hb
+            · exact .base hm
+          | field sp hsp _ ht ih => exact .field sp (List.mem_cons_of_mem _ hsp) ih ht
+        intro sp hsp
+        rcases List.mem_cons.mp hsp with rfl | hsp'
+        · exact h0
+        · exact lift _ (ih h sp hsp')
+
+/-- in an accepted expansion every struct type eventually gets a supplier -/
+theorem pass2_avail (sps : List PSpec) {provs provs' : List PSpec} {m m' : SupMap}
+    (h : pass2 sps provs m = .ok (provs', m')) : ∀ sp ∈ sps, Avail m sps sp.structTy := by
+  obtain ⟨sps', hp, ho⟩ := pass2_ok_ordered h
+  intro sp hsp
+  exact (pass2Ordered_avail sps' ho sp (hp.mem_iff.mpr hsp)).mono (fun x hx => hp.mem_iff.mp hx)
+
+/-- after the ordered expansion of `ord`, if no remaining provider (`pend`) has a supplier for its struct type,
+    every type key that eventually gets a supplier has got one -/
+theorem avail_supplied {sps ord pend provs provs' : List PSpec} {m m' : SupMap} (hp : (ord ++ pend).Perm sps)
+    (ho : pass2Ordered ord provs m = .ok (provs', m')) (hn : ∀ sp ∈ pend, m'.lookup sp.structTy = none)
+    {t : Nat} (h : Avail m sps t) : m'.lookup t ≠ none := by
+  obtain ⟨a1, _, _, a4⟩ := pass2Ordered_spec ord ho
+  induction h with
+  | @base t hb =>
+    cases hm : m.lookup t with
+    | none => exact absurd hm hb
+    | some v => rw [a1 _ _ hm]; intro hc; cases hc
+  | @field t sp hsp _ ht ih =>
+    have hmem : sp ∈ ord ++ pend := hp.mem_iff.mpr hsp
+    rcases List.mem_append.mp hmem with ho' | hpe
+    · intro hc
+      exact ((a4 t).mp hc).2 (List.mem_flatMap.mpr ⟨sp, ho', ht⟩)
+    · exact absurd (hn sp hpe) ih
+
+/-- the repaired pass 2 fails only with `dup`, or with `orphan` for a struct provider whose struct type *never*
+    gets a supplier: not in the incoming supplier map and not a field of a struct provider that can be expanded
+    (in whatever order) -/
+theorem pass2_err (sps : List PSpec) {provs : List PSpec} {m : SupMap} {e : PlanErr}
+    (h : pass2 sps provs m = .error e) :
+    (∃ t, t ∈ allFieldTys sps ∧ e = .dup t) ∨
+    (∃ sp ∈ sps, e = .orphan sp.structTy ∧ ¬ Avail m sps sp.structTy) := by
+  obtain ⟨ord, pend, hp, hc⟩ := pass2_err_cases h
+  rcases hc with ⟨ho, t, ht⟩ | ⟨r, sp, ho, hsp, hn, he⟩
+  · left
+    rcases pass2Ordered_err ord ho with ⟨t', ht', he⟩ | ⟨_, sp, _, _, he, _, _⟩
+    · refine ⟨t', ?_, he⟩
+      apply (allFieldTys_perm hp).mem_iff.mp
+      rw [allFieldTys_append]; exact List.mem_append_left _ ht'
+    · rw [ht] at he; cases he
+  · right
+    obtain ⟨provs', m'⟩ := r
+    refine ⟨sp, hp.mem_iff.mp (List.mem_append_right _ hsp), he, ?_⟩
+    intro hav
+    exact avail_supplied hp ho hn hav (hn sp hsp)
 
 /-! ## list helpers -/
 
@@ -455,7 +553,7 @@ theorem flatMap_filter_index_inj {α β} {f : α → List β} {p : α → Bool} 
 /-- the error is one of the two declaration-level refusals of `NewGraph`'s first two passes -/
 def DupOrOrphan (e : PlanErr) : Prop := (∃ t, e = .dup t) ∨ (∃ t, e = .orphan t)
 
-/-- the struct providers in expansion order -/
+/-- the struct providers, in declaration order (= the initial pending list of `pass2`) -/
 def structsOf (provs : List PSpec) : List PSpec := provs.filter (·.kind == 1)
 
 /-- some expanded struct field has a type that already has another supplier:
@@ -506,8 +604,8 @@ theorem pass2_fails_of_clash {provs : List PSpec} (hc : FieldClash provs) {sup1 
 
 /-- **C09 (ambiguous struct field)**: if some expanded struct field has a type that a function provider
     lists, or that another field of the same struct has, or that a field of another struct provider has, the
-    declaration is refused with `dup` or `orphan` (the latter only when a struct expanded no later than the
-    clash has no source, see `field_dup_refused_dup`).  No assumption on pass 1 is needed: if pass 1 fails the
+    declaration is refused with `dup` or `orphan` (the latter only when some struct expansion never gets a
+    source, see `field_dup_refused_dup`).  No assumption on pass 1 is needed: if pass 1 fails the
     error is a `dup` as well. -/
 theorem field_dup_refused {provs : List PSpec} (ret : Nat) (hc : FieldClash provs) :
     ∃ e, newGraph2 provs ret = .error e ∧ DupOrOrphan e := by
@@ -520,27 +618,83 @@ theorem field_dup_refused {provs : List PSpec} (ret : Nat) (hc : FieldClash prov
     | ok r => exact absurd h2 (pass2_fails_of_clash hc h1 r)
     | error e =>
       refine ⟨e, newGraph2_pass2_err ret h1 h2, ?_⟩
-      rcases pass2_err _ h2 with ⟨t, _, he⟩ | ⟨_, sp, _, _, he, _, _⟩
+      rcases pass2_err _ h2 with ⟨t, _, he⟩ | ⟨sp, _, he, _⟩
       · exact Or.inl ⟨t, he⟩
       · exact Or.inr ⟨sp.structTy, he⟩
 
-/-- every struct provider has a source for its struct at the time it is expanded: a function provider lists
-    the struct type, or it is a field of a struct provider expanded earlier -/
+/-- type key `t` eventually has a supplier, at the level of the declaration (order-independent): a function
+    provider lists it, or it is a field type of a `Struct` provider whose own struct type eventually has a supplier.
+    (`Struct[8]{x:5}`, `Struct[5]{y:6}` with a function returning 8: the keys 8, 5 and 6 are sourced.) -/
+inductive Sourced (provs : List PSpec) : Nat → Prop
+  | fn {t : Nat} (q : PSpec) (hq : q ∈ provs) (hk : q.kind ≠ 1) (hl : Lists q t) : Sourced provs t
+  | field {t : Nat} (sp : PSpec) (hsp : sp ∈ provs) (hk : sp.kind = 1) (hs : Sourced provs sp.structTy)
+      (ht : t ∈ fieldTys sp) : Sourced provs t
+
+theorem mem_structsOf_iff {provs0 : List PSpec} {sp : PSpec} : sp ∈ structsOf provs0 ↔ sp ∈ provs0 ∧ sp.kind = 1 := by
+  unfold structsOf
+  rw [List.mem_filter]
+  simp
+
+/-- `Sourced` is `Avail` over the supplier map of pass 1 -/
+theorem sourced_iff_avail {provs : List PSpec} {sup1 : SupMap} (h1 : pass1 0 provs [] = .ok sup1) (t : Nat) :
+    Sourced provs t ↔ Avail sup1 (structsOf provs) t := by
+  obtain ⟨_, b2, b3⟩ := pass1_spec provs h1
+  constructor
+  · intro h
+    induction h with
+    | fn q hq hk hl =>
+      obtain ⟨k, hk'⟩ := List.mem_iff_getElem?.mp hq
+      obtain ⟨gi, hgi⟩ := b2 k q hk' hk _ hl
+      exact .base (by rw [hgi]; intro hc; cases hc)
+    | field sp hsp hk _ ht ih => exact .field sp (mem_structsOf hsp hk) ih ht
+  · intro h
+    induction h with
+    | @base t hb =>
+      apply Classical.byContradiction
+      intro hc
+      exact hb (b3 t (fun q hq hk hl => hc (.fn q hq hk hl)) rfl)
+    | field sp hsp _ ht ih =>
+      obtain ⟨h0, hk⟩ := mem_structsOf_iff.mp hsp
+      exact .field sp h0 hk ih ht
+
+/-- every struct expansion eventually has a source for its struct: a function provider lists the struct type, or
+    it is a field of a struct provider that itself eventually has a source (whatever the declaration order) -/
 def StructsSourced (provs : List PSpec) : Prop :=
-  ∀ pre sp post, structsOf provs = pre ++ sp :: post →
-    (∃ q ∈ provs, q.kind ≠ 1 ∧ Lists q sp.structTy) ∨ sp.structTy ∈ allFieldTys pre
+  ∀ sp ∈ provs, sp.kind = 1 → Sourced provs sp.structTy
+
+/-- the criterion of the planner before the repair — each struct type is listed by a function provider or is a
+    field of a struct provider declared *earlier* — is a special case -/
+theorem structsSourced_of_ordered {provs : List PSpec}
+    (h : ∀ pre sp post, structsOf provs = pre ++ sp :: post →
+      (∃ q ∈ provs, q.kind ≠ 1 ∧ Lists q sp.structTy) ∨ sp.structTy ∈ allFieldTys pre) :
+    StructsSourced provs := by
+  have key : ∀ n pre sp post, pre.length = n → structsOf provs = pre ++ sp :: post → Sourced provs sp.structTy := by
+    intro n
+    induction n using Nat.strongRecOn with
+    | _ n ih =>
+      intro pre sp post hlen hsplit
+      rcases h pre sp post hsplit with ⟨q, hq, hk, hl⟩ | hin
+      · exact .fn q hq hk hl
+      · obtain ⟨sp', hsp', ht⟩ := List.mem_flatMap.mp hin
+        obtain ⟨pre1, post1, hpre⟩ := List.append_of_mem hsp'
+        have hsplit' : structsOf provs = pre1 ++ sp' :: (post1 ++ sp :: post) := by
+          rw [hsplit, hpre]; simp
+        have hs' := ih pre1.length (by rw [← hlen, hpre]; simp) pre1 sp' _ rfl hsplit'
+        have hmem : sp' ∈ structsOf provs := by rw [hsplit']; simp
+        obtain ⟨h0, hk⟩ := mem_structsOf_iff.mp hmem
+        exact .field sp' h0 hk hs' ht
+  intro sp hsp hk
+  obtain ⟨pre, post, hsplit⟩ := List.append_of_mem (mem_structsOf hsp hk)
+  exact key pre.length pre sp post rfl hsplit
 
 /-- with all struct expansions sourced, pass 2 never reports `orphan` -/
 theorem pass2_no_orphan {provs : List PSpec} (hs : StructsSourced provs) {sup1 : SupMap}
     (h1 : pass1 0 provs [] = .ok sup1) {e : PlanErr} (h2 : pass2 (structsOf provs) provs sup1 = .error e) :
     ∃ t, e = .dup t := by
-  rcases pass2_err _ h2 with ⟨t, _, he⟩ | ⟨pre, sp, post, hsplit, _, hn, hnp⟩
+  rcases pass2_err _ h2 with ⟨t, _, he⟩ | ⟨sp, hsp, _, hna⟩
   · exact ⟨t, he⟩
-  · rcases hs pre sp post hsplit with ⟨q, hq, hqk, hl⟩ | hin
-    · obtain ⟨k, hk'⟩ := List.mem_iff_getElem?.mp hq
-      obtain ⟨gi, hgi⟩ := (pass1_spec provs h1).2.1 k q hk' hqk _ hl
-      rw [hn] at hgi; cases hgi
-    · exact absurd hin hnp
+  · obtain ⟨hsp0, hk⟩ := mem_structsOf_iff.mp hsp
+    exact absurd ((sourced_iff_avail h1 _).mp (hs sp hsp0 hk)) hna
 
 /-- **C09 (ambiguous struct field, exact error)**: if moreover every struct expansion has a source, the
     refusal is a `dup` error. -/
@@ -559,49 +713,46 @@ theorem field_dup_refused_dup {provs : List PSpec} (ret : Nat) (hc : FieldClash 
 
 /-! ## 3. a struct expansion without a source -/
 
-/-- **C09 (orphan struct), operational form**: pass 1 succeeds, the struct providers before `sp` expand
-    successfully, and at that time nobody supplies `sp.structTy`: the error is exactly `orphan sp.structTy`. -/
-theorem orphan_refused_at {provs pre post : List PSpec} {sp : PSpec} (ret : Nat) {sup1 : SupMap}
-    {r : List PSpec × SupMap}
-    (hsplit : structsOf provs = pre ++ sp :: post)
-    (h1 : pass1 0 provs [] = .ok sup1) (hpre : pass2 pre provs sup1 = .ok r)
-    (hnone : r.2.lookup sp.structTy = none) :
-    newGraph2 provs ret = .error (.orphan sp.structTy) := by
-  apply newGraph2_pass2_err ret h1
-  show pass2 (structsOf provs) provs sup1 = _
-  rw [hsplit, pass2_append, hpre]
-  simp only [pass2, hnone]
-  rfl
-
-/-- **C09 (orphan struct), declaration-level form**: if the struct type of struct provider `sp` is listed by no
-    function provider and is not a field type of any struct provider expanded before it, the declaration is
-    refused: with `orphan sp.structTy`, unless an earlier step already failed with a `dup` (pass 1, or an
-    earlier field) or with the `orphan` of an earlier struct provider. -/
-theorem orphan_refused {provs pre post : List PSpec} {sp : PSpec} (ret : Nat)
-    (hsplit : structsOf provs = pre ++ sp :: post)
-    (hnofun : ∀ q ∈ provs, q.kind ≠ 1 → ¬ Lists q sp.structTy)
-    (hnofield : sp.structTy ∉ allFieldTys pre) :
+/-- **C09 (orphan struct), general form**: a `Struct` provider whose struct type never gets a source — no function
+    provider lists it and it is not a field of a `Struct` provider that itself (recursively) has a source; this does
+    not depend on the declaration order — makes the planner refuse the declaration: with the `orphan` of such a
+    provider (this one or another unsourced one: the first that is still pending when a round makes no progress),
+    unless an earlier step already failed with a `dup` (pass 1, or a clashing field). -/
+theorem orphan_refused_unsourced {provs : List PSpec} {sp : PSpec} (ret : Nat)
+    (hsp : sp ∈ provs) (hk : sp.kind = 1) (hns : ¬ Sourced provs sp.structTy) :
     ∃ e, newGraph2 provs ret = .error e ∧
-      (e = .orphan sp.structTy ∨ (∃ t, e = .dup t) ∨ (∃ sp' ∈ pre, e = .orphan sp'.structTy)) := by
+      ((∃ sp' ∈ provs, sp'.kind = 1 ∧ ¬ Sourced provs sp'.structTy ∧ e = .orphan sp'.structTy) ∨ (∃ t, e = .dup t)) := by
   cases h1 : pass1 0 provs [] with
   | error e =>
     obtain ⟨t, he⟩ := pass1_err provs h1
-    exact ⟨e, newGraph2_pass1_err ret h1, Or.inr (Or.inl ⟨t, he⟩)⟩
+    exact ⟨e, newGraph2_pass1_err ret h1, Or.inr ⟨t, he⟩⟩
   | ok sup1 =>
-    have hs1 : sup1.lookup sp.structTy = none := (pass1_spec provs h1).2.2 _ hnofun rfl
-    cases hpre : pass2 pre provs sup1 with
-    | error e =>
-      refine ⟨e, ?_, ?_⟩
-      · apply newGraph2_pass2_err ret h1
-        show pass2 (structsOf provs) provs sup1 = _
-        rw [hsplit, pass2_append, hpre]
-      · rcases pass2_err _ hpre with ⟨t, _, he⟩ | ⟨p1, sp', p2, hs, he, _, _⟩
-        · exact Or.inr (Or.inl ⟨t, he⟩)
-        · exact Or.inr (Or.inr ⟨sp', by rw [hs]; simp, he⟩)
+    cases h2 : pass2 (structsOf provs) provs sup1 with
     | ok r =>
       obtain ⟨provs', m'⟩ := r
-      have hn : m'.lookup sp.structTy = none := ((pass2_spec _ hpre).2.2.2 _).mpr ⟨hs1, hnofield⟩
-      exact ⟨_, orphan_refused_at ret hsplit h1 hpre hn, Or.inl rfl⟩
+      exact absurd ((sourced_iff_avail h1 _).mpr (pass2_avail _ h2 sp (mem_structsOf hsp hk))) hns
+    | error e =>
+      refine ⟨e, newGraph2_pass2_err ret h1 h2, ?_⟩
+      rcases pass2_err _ h2 with ⟨t, _, he⟩ | ⟨sp', hsp', he, hna⟩
+      · exact Or.inr ⟨t, he⟩
+      · obtain ⟨h0, hk'⟩ := mem_structsOf_iff.mp hsp'
+        exact Or.inl ⟨sp', h0, hk', fun hc => hna ((sourced_iff_avail h1 _).mp hc), he⟩
+
+/-- **C09 (orphan struct), declaration-level form**: if the struct type of `Struct` provider `sp` is listed by no
+    function provider and is not a field type of any expanded struct — wherever that struct is declared, before or
+    after `sp` — the declaration is refused: with the `orphan` of some `Struct` provider (`sp` or another one without
+    a source), unless an earlier step already failed with a `dup` (pass 1, or a clashing field). -/
+theorem orphan_refused {provs : List PSpec} {sp : PSpec} (ret : Nat)
+    (hsp : sp ∈ provs) (hk : sp.kind = 1)
+    (hnofun : ∀ q ∈ provs, q.kind ≠ 1 → ¬ Lists q sp.structTy)
+    (hnofield : sp.structTy ∉ allFieldTys (structsOf provs)) :
+    ∃ e, newGraph2 provs ret = .error e ∧
+      ((∃ sp' ∈ provs, sp'.kind = 1 ∧ ¬ Sourced provs sp'.structTy ∧ e = .orphan sp'.structTy) ∨ (∃ t, e = .dup t)) := by
+  apply orphan_refused_unsourced ret hsp hk
+  intro hs
+  cases hs with
+  | fn q hq hqk hl => exact hnofun q hq hqk hl
+  | field sp' hsp' hk' _ ht => exact hnofield (List.mem_flatMap.mpr ⟨sp', mem_structsOf hsp' hk', ht⟩)
 
 /-! ## 4. accepted graphs are acyclic -/
 
@@ -1047,14 +1198,14 @@ theorem expandFields_extends {sty decl : Nat} (fs : List (String × Nat)) {provs
     · obtain ⟨extra, he⟩ := ih h
       exact ⟨mkFieldProv sty decl fname fty :: extra, by rw [he]; simp [mkFieldProv]⟩
 
-theorem pass2_extends (sps : List PSpec) {provs provs' : List PSpec} {m m' : SupMap}
-    (h : pass2 sps provs m = .ok (provs', m')) : ∃ extra, provs' = provs ++ extra := by
+theorem pass2Ordered_extends (sps : List PSpec) {provs provs' : List PSpec} {m m' : SupMap}
+    (h : pass2Ordered sps provs m = .ok (provs', m')) : ∃ extra, provs' = provs ++ extra := by
   induction sps generalizing provs m with
   | nil =>
-    simp [pass2, pure, Except.pure] at h
+    simp [pass2Ordered, pure, Except.pure] at h
     exact ⟨[], by simp [h.1]⟩
   | cons sp sps ih =>
-    simp only [pass2] at h
+    simp only [pass2Ordered] at h
     split at h
     · cases h
     · simp only [bind, Except.bind] at h
@@ -1065,6 +1216,11 @@ theorem pass2_extends (sps : List PSpec) {provs provs' : List PSpec} {m m' : Sup
         obtain ⟨x1, hx1⟩ := expandFields_extends _ h1
         obtain ⟨x2, hx2⟩ := ih h
         exact ⟨x1 ++ x2, by rw [hx2, hx1]; simp⟩
+
+theorem pass2_extends (sps : List PSpec) {provs provs' : List PSpec} {m m' : SupMap}
+    (h : pass2 sps provs m = .ok (provs', m')) : ∃ extra, provs' = provs ++ extra := by
+  obtain ⟨sps', _, ho⟩ := pass2_ok_ordered h
+  exact pass2Ordered_extends sps' ho
 
 /-- declaration-level "needs" between declared providers: `q` requires a type key that function provider `q'`
     lists (as a result type or a bound interface) -/
@@ -1144,18 +1300,12 @@ theorem clashFn : FieldClash clashFnDecl :=
     (by simp [clashFnDecl]) rfl (by simp) (by simp [clashFnDecl]) (by decide) ⟨[6], by simp, by simp⟩
 
 theorem clashFn_sourced : StructsSourced clashFnDecl := by
-  intro pre sp post hs
-  have hst : structsOf clashFnDecl = [{ kind := 1, structTy := 5, fields := [("A", 6)] }] := rfl
-  rw [hst] at hs
-  cases pre with
-  | nil =>
-    simp only [List.nil_append, List.cons.injEq] at hs
-    obtain ⟨rfl, _⟩ := hs
-    exact Or.inl ⟨{ provides := [[5]] }, by simp [clashFnDecl], by decide, ⟨[5], by simp, by simp⟩⟩
-  | cons a pre' =>
-    simp only [List.cons_append, List.cons.injEq] at hs
-    have := hs.2
-    simp at this
+  intro sp hsp hk
+  simp only [clashFnDecl, List.mem_cons, List.not_mem_nil, or_false] at hsp
+  rcases hsp with rfl | rfl | rfl
+  · cases hk
+  · cases hk
+  · exact .fn { provides := [[5]] } (by simp [clashFnDecl]) (by decide) ⟨[5], by simp, by simp⟩
 
 example : ∃ e, newGraph2 clashFnDecl 6 = .error e ∧ DupOrOrphan e := field_dup_refused 6 clashFn
 example : ∃ t, newGraph2 clashFnDecl 6 = .error (.dup t) := field_dup_refused_dup 6 clashFn clashFn_sourced
@@ -1184,8 +1334,9 @@ example : errOf (newGraph2 clashTwoDecl 6) = some (.dup 6) := by decide
 def orphanDecl : List PSpec := [{ provides := [[4]] }, { kind := 1, structTy := 5, fields := [("A", 6)] }]
 
 example : ∃ e, newGraph2 orphanDecl 6 = .error e ∧
-    (e = .orphan 5 ∨ (∃ t, e = .dup t) ∨ (∃ sp' ∈ ([] : List PSpec), e = .orphan sp'.structTy)) :=
-  orphan_refused (pre := []) (sp := { kind := 1, structTy := 5, fields := [("A", 6)] }) (post := []) 6 rfl
+    ((∃ sp' ∈ orphanDecl, sp'.kind = 1 ∧ ¬ Sourced orphanDecl sp'.structTy ∧ e = .orphan sp'.structTy) ∨
+      (∃ t, e = .dup t)) :=
+  orphan_refused (sp := { kind := 1, structTy := 5, fields := [("A", 6)] }) 6 (by simp [orphanDecl]) rfl
     (by
       intro q hq hk hl
       simp only [orphanDecl, List.mem_cons, List.not_mem_nil, or_false] at hq
@@ -1193,7 +1344,7 @@ example : ∃ e, newGraph2 orphanDecl 6 = .error e ∧
       · obtain ⟨g, hg, ht⟩ := hl
         simp at hg; subst hg; simp at ht
       · exact hk rfl)
-    (by simp [allFieldTys])
+    (by decide)
 example : errOf (newGraph2 orphanDecl 6) = some (.orphan 5) := by decide
 
 /-- 4: an accepted declaration (a diamond), so `accepted_acyclic` is not vacuous -/
@@ -1239,7 +1390,8 @@ end KV
 #print axioms KV.dup_refused
 #print axioms KV.field_dup_refused
 #print axioms KV.field_dup_refused_dup
-#print axioms KV.orphan_refused_at
+#print axioms KV.orphan_refused_unsourced
+#print axioms KV.structsSourced_of_ordered
 #print axioms KV.orphan_refused
 #print axioms KV.accepted_acyclic
 #print axioms KV.accepted_acyclic_list
